@@ -15,7 +15,7 @@ let rec int_of_nat = function O -> 0 | S n -> 1 + int_of_nat n
 let q n d = { qnum = z_of_int n; qden = pos_of_int d }
 
 (* token reader *)
-let toks : string list ref = ref []
+let toks : Stdlib.String.t list ref = ref []   (* Stdlib.String.t: models that use Coq strings extract a type named "string" *)
 let next_tok () = match !toks with x :: r -> toks := r; x | [] -> failwith "unexpected end of request"
 let next () = int_of_string (next_tok ())
 let next_n () = n_of_int (next ())
@@ -27,7 +27,7 @@ let next_list f = let c = next () in List.init c (fun _ -> f ())
 
 let s_nodes l = String.concat " " (List.map (fun x -> string_of_int (int_of_n x)) l)
 
-let handlers : (string * (unit -> unit)) list ref = ref []
+let handlers : (Stdlib.String.t * (unit -> unit)) list ref = ref []
 let register name f = handlers := (name, f) :: !handlers
 
 
